@@ -256,6 +256,9 @@ func satisfy(r *core.Rand, c *condSpec, m *message) {
 		if c.b == "" {
 			kv[1] = "v2"
 		}
+		if !validToken(kv[0]) || !validToken(kv[1]) || strings.ContainsAny(kv[0]+kv[1], "%&'*+!#$^`|~") { // keep to cookies net/http parses back as written
+			break
+		}
 		m.reqCk, m.resCk = append(m.reqCk, kv), append(m.resCk, kv)
 	}
 }
@@ -513,6 +516,11 @@ func (P) Gen(r *core.Rand, tier string, emit func([]string)) {
 		emit(genCase(r, 5, 4))
 		if i%3 == 0 {
 			emit(matcherCase(r.Fork()))
+		}
+		if i%2 == 0 {
+			if c := jsonCase(r.Fork()); len(c) > 0 {
+				emit(c)
+			}
 		}
 	}
 }
